@@ -67,6 +67,7 @@ typedef struct {
     /* samples */
     int nsamp;
     fent samp[6];
+    int samp_bound[6][5]; /* bounds of the level the sample was recorded at */
     char samp_obs[6][200];
 } shared_t;
 
@@ -413,6 +414,7 @@ static void worker(int wi)
             record_outcome(xr->obs);
             if (S->nsamp < 6 && (S->ok % 97 == 1 || S->nsamp == 0)) {
                 S->samp[S->nsamp] = e;
+                memcpy(S->samp_bound[S->nsamp], cur_bound, sizeof(cur_bound));
                 snprintf(S->samp_obs[S->nsamp], 200, "%s", xr->obs);
                 S->nsamp++;
             }
@@ -842,6 +844,8 @@ int abtmc_main(int argc, char **argv, const abtmc_driver *d)
         for (int i = 0; i < S->nsamp; i++) {
             fprintf(out, "%s{\"deviations\":", i ? "," : "");
             json_devs(out, S->samp[i].dev, S->samp[i].ndev);
+            fprintf(out, ",\"bounds\":[%d,%d,%d]", S->samp_bound[i][1],
+                    S->samp_bound[i][2], S->samp_bound[i][3]);
             fprintf(out, ",\"obs\":");
             json_str(out, S->samp_obs[i]);
             fprintf(out, "}");
